@@ -77,7 +77,14 @@ func vfValues(sent []vfSent, name string) []string {
 }
 
 //vf:harness property=C01 nopanic reach=c01-first,c01-second,c01-body-cl,c01-body-chunked,c01-origin-form,c01-upgrade,c01-inside-mitm steps=8000000
-func vfH_C01_pipe() {
+func vfH_C01_pipe() { vfC01Scenario(false) }
+
+//vf:assume C01-tls: the same requests inside an intercepted tunnel that starts with a TLS hello: crypto/tls is modelled as a transparent layer (one record consumed, handshake succeeds, bytes pass through), so the requests take the decrypted-tunnel path (secure session: https scheme, X-Forwarded-Proto https); field pool and bodies as above, shapes: GET first request / chunked POST as second request; certificates and real records are outside; model-only
+
+//vf:harness property=C01 nopanic modelonly reach=c01-inside-mitm,c01-tls-session,c01-body-chunked steps=8000000
+func vfH_C01_pipe_tls() { vfC01Scenario(true) }
+
+func vfC01Scenario(tlsSession bool) {
 	cfg := HTTPProxyConfig{}
 	cfg.Name = "fw"
 	cfg.ProxyLocalhost = AllowProxyLocalhost
@@ -106,7 +113,12 @@ func vfH_C01_pipe() {
 	}
 	// request shape: the thorough tier takes the full product, the quick tier a covering set of 8 combinations
 	bodyKind, chunks2, http10, originForm, secondReq, insideMITM := 0, false, false, false, false, false
-	if vfrt.Thorough() {
+	if tlsSession {
+		insideMITM, originForm = true, true
+		if vfrt.Choice("shape", 2) == 1 {
+			bodyKind, secondReq = 2, true
+		}
+	} else if vfrt.Thorough() {
 		insideMITM = vfrt.Choice("inside-mitm", 2) == 1
 		bodyKind = vfrt.Choice("body", 4)
 		chunks2 = bodyKind >= 2 && vfrt.Choice("chunks", 2) == 1
@@ -185,7 +197,16 @@ func vfH_C01_pipe() {
 		// the request travels inside an intercepted tunnel (plaintext inside, so no TLS handshake is involved)
 		vfrt.Reach("c01-inside-mitm")
 		hp.proxy.MITMConfig = &mitm.Config{}
-		wire = "CONNECT example.com:80 HTTP/1.1\r\nHost: example.com:80\r\n\r\n" + wire
+		hello := ""
+		if tlsSession {
+			vfrt.Reach("c01-tls-session")
+			hello = "\x16\x03\x01\x00\x03abc" // one TLS record: where the ClientHello would be
+		}
+		wire = "CONNECT example.com:80 HTTP/1.1\r\nHost: example.com:80\r\n\r\n" + hello + wire
+	}
+	wantScheme := "http"
+	if tlsSession {
+		wantScheme = "https"
 	}
 	conn := martian.NewVfConn([]byte(wire))
 	martian.VfServeConn(hp.proxy, conn)
@@ -205,7 +226,7 @@ func vfH_C01_pipe() {
 	vfrt.Assert(got.Host == "example.com" && got.URL.Host == "example.com", "c01/host")
 	if len(vfValues(sent, "X-Forwarded-Proto")) == 0 {
 		// a client-supplied X-Forwarded-Proto is honoured for origin-form targets by design (AllowHTTP); see DESIGN 3.1
-		vfrt.Assert(got.URL.Scheme == "http", "c01/scheme")
+		vfrt.Assert(got.URL.Scheme == wantScheme, "c01/scheme")
 	}
 	vfrt.Assert(string(rt.bodies[want-1]) == body, "c01/body-bytes")
 	if framing == "Content-Length: 3\r\n" {
@@ -266,7 +287,7 @@ func vfH_C01_pipe() {
 		vfrt.Assert(strings.Join(hdr["X-Forwarded-For"], ",") == "192.0.2.1", "c01/client-address-in-forwarded-for")
 	}
 	if len(vfValues(sent, "X-Forwarded-Proto")) == 0 {
-		vfrt.Assert(hdr.Get("X-Forwarded-Proto") == "http", "c01/forwarded-proto-filled")
+		vfrt.Assert(hdr.Get("X-Forwarded-Proto") == wantScheme, "c01/forwarded-proto-filled")
 	}
 	if len(vfValues(sent, "X-Forwarded-Host")) == 0 {
 		vfrt.Assert(hdr.Get("X-Forwarded-Host") == "example.com", "c01/forwarded-host-filled")
